@@ -877,10 +877,18 @@ impl World {
                     let b = BlockInfo { height: *height, time: Timestamp::from_nanos(*time_nanos), chain_id: chain_id.clone() };
                     catch(|| self.app.set_block(b))
                 };
+                let panicked = r.is_err();
                 if let Err(p) = r {
                     discs.push(Disc { props: vec!["C14", "C05"], sig: "block-update-panics".into(), detail: p });
                 }
+                // the block that was set is the current block — whether it is later, earlier or the same as before
+                let (h, t, c) = self.model.block.clone();
+                let expected = if *next { (h.wrapping_add(1), t.wrapping_add(5_000_000_000), c) } else { (*height, *time_nanos, chain_id.clone()) };
+                rep.bump(if expected.0 < h { "e1/block_changes/to_a_lower_height" } else if expected.0 == h { "e1/block_changes/set_same_height" } else { "e1/block_changes/to_a_higher_height" });
                 self.model.block = block_tuple(&self.app.block_info());
+                if !panicked && self.model.block != expected {
+                    discs.push(Disc { props: vec!["C05"], sig: "block-info-differs-from-the-block-that-was-set".into(), detail: format!("block_info() = {:?}, expected {:?}", self.model.block, expected) });
+                }
                 if let Some(t) = self.transcript.as_mut() {
                     t.push(format!("block {:?}", self.model.block));
                 }
